@@ -463,7 +463,7 @@ def run_one(ctx, h, known_keys, replay_root):
     t0 = time.time()
     try:
         # known-finding exclusion: only findings listed in known_findings.txt are excluded
-        kf_active = [k for k in h.kf if k in known_keys]
+        kf_active = [k for k in h.kf if k in known_keys and k != h.probe_for]
         excl = ["KF_" + k for k in kf_active]
         if h.witness == "twin":
             gb, _ = build_harness(ctx, h, extra_defines=excl + ["NO_WITNESS"])
